@@ -324,7 +324,8 @@ def _run_rules(ctx, report):
     for config in ctx.configs:
         facts = ctx.facts(config)
         only = lambda ident: ident in ("Dispatcher::dispatch", "Dispatcher::dispatch_thread_local", "AsyncDispatcher::wait",
-                                       "Dispatcher::dispatch_par", "Dispatcher::dispatch_seq", "AsyncDispatcher::dispatch")
+                                       "Dispatcher::dispatch_par", "Dispatcher::dispatch_seq", "AsyncDispatcher::dispatch",
+                                       "<Dispatcher as RunNow>::run_now")
         report.guard("C12.SEQ", F.check_family, ctx, report, "C12.SEQ", facts, config, (F.RUN,), only)
         report.guard("C12.SEQ", S.build_wiring, ctx, report, "C12.SEQ", facts, config)
         report.guard("C12.WHERE", where, ctx, report, facts, config)
